@@ -20,6 +20,29 @@ def scripts_for(nthreads, maxp):
                     "script:%s,%dx0" % (",".join("%dx0" % u for u in order), v)
 
 
+def freeze_sweep(prog_path, workdir, maxp=40, maxq=60, jobs=16):
+    """Thread V runs p steps, thread U runs q steps and is then suspended for ever (with every
+    other thread); V must finish its current operation running alone (C08/C09)."""
+    os.makedirs(workdir, exist_ok=True)
+    prog = tracemod.parse_program(open(prog_path).read())
+    n = len(prog["threads"])
+    name = os.path.splitext(os.path.basename(prog_path))[0]
+    jobs_list = []
+    for v in range(n):
+        for u in range(n):
+            if u == v:
+                continue
+            for p in range(0, maxp, 1):
+                for q in range(1, maxq, 1):
+                    sc = ("script:%dx%d,%dx%d;solo=%d" % (v, p, u, q, v)) if p else ("script:%dx%d;solo=%d" % (u, q, v))
+                    base = os.path.join(workdir, "%s-fz-%s" % (name, hashlib.sha1(sc.encode()).hexdigest()[:8]))
+                    jobs_list.append((prog_path, 0, sc, base))
+    def one(j):
+        return corr.run_program(j[0], j[1], j[2], j[3], family="corpus")
+    with ThreadPoolExecutor(max_workers=jobs) as ex:
+        return list(ex.map(one, jobs_list))
+
+
 def sweep(prog_path, workdir, maxp=120, jobs=16, two_level=False):
     os.makedirs(workdir, exist_ok=True)
     prog = tracemod.parse_program(open(prog_path).read())
